@@ -98,11 +98,8 @@ func genCrash(g *Gen) {
 				boots++
 				// process death and restart of the uninterrupted run itself; the node may be ahead
 				l.op("boot", "boot")
-				// Start caught up with the node: the notifications still queued are now stale
-				if g.Rng.Intn(2) == 0 {
-					l.queue = nil
-					l.g.Stats["boot-drops-queue"]++
-				}
+				// the notification queue died with the process; Start caught up with the node
+				l.queue = nil
 			case k < 21 && boots < 2 && !bg:
 				boots++
 				l.op("restart", "restart")
